@@ -11,6 +11,7 @@ import GoLevel.Driver.Life
 import GoLevel.Driver.Cache
 import GoLevel.Driver.RefLoop
 import GoLevel.Driver.Durable
+import GoLevel.Driver.FSMeta
 /-! `gldriver`: reads one operation per line on stdin, answers one line per operation on stdout.
 The first token selects the layer.  Core-only (must link). -/
 open GoLevel GoLevel.Driver
@@ -45,6 +46,7 @@ def dispatch (st : DState) (line : String) : DState × String :=
     | some (wp', out) => ({ st with wp := wp' }, out)
     | none => (st, "bad-op")
   | "life" :: rest => (st, (handleLife rest).getD "bad-op")
+  | "fsm" :: rest => (st, (handleFsm rest).getD "bad-op")
   | "mem" :: rest =>
     match handleMem st.mem rest with
     | some (m', out) => ({ st with mem := m' }, out)
